@@ -228,6 +228,7 @@ def cases(tier, seed, i, n):
         for ctx in ctxs:
             for b0 in range(256):
                 yield dict(kind='hdr', ctx=ctx, b0=b0)
+        yield gen.mark('all 65536 two-byte headers x 3 contexts (fresh, in-fragment, deflate)')
         vps = violation_params()
         # position sweep over the fixed prefix
         for k in range(8):
@@ -241,7 +242,7 @@ def cases(tier, seed, i, n):
                     if (vi + k) % 2 == 0 and seg == 'coalesced':
                         yield dict(kind='pos', k=k, cls=cls, p=p, seg=seg, cutseed=k * 1000 + vi, z=False, app_close=True)
         rnd = random.Random(seed * 7919 + 4)
-        count = 8000 if tier == 'quick' else 120000
+        count = 8000 if tier == 'quick' else 600000
         for idx in range(count):
             cls, p = vps[idx % len(vps)] if idx < 2 * len(vps) else rnd.choice(vps)
             msgs = []
@@ -520,7 +521,3 @@ def one_header(case, acc, b0, b1, length, infrag, z):
             detail)
     else:
         acc.cls('hdr/%s/%s/%s' % (case['ctx'], verdict, '+'.join(why) if why else 'op%d' % op))
-
-
-def finish(acc, tier, i, n, truncated):
-    acc.exhaustive_done['all 65536 two-byte headers x 3 contexts (fresh, in-fragment, deflate)'] = not truncated
